@@ -2,6 +2,7 @@ package python
 
 import (
 	"fmt"
+	"sort"
 	"strings"
 
 	"github.com/grafana/cog/internal/ast"
@@ -48,6 +49,22 @@ func formatValue(val any) string {
 		}
 
 		return fmt.Sprintf("[%s]", strings.Join(items, ", "))
+	}
+
+	if dict, ok := val.(map[string]any); ok {
+		// keys sorted: the output must not depend on the iteration order of the map
+		keys := make([]string, 0, len(dict))
+		for key := range dict {
+			keys = append(keys, key)
+		}
+		sort.Strings(keys)
+
+		items := make([]string, 0, len(dict))
+		for _, key := range keys {
+			items = append(items, fmt.Sprintf("%#v: %s", key, formatValue(dict[key])))
+		}
+
+		return fmt.Sprintf("{%s}", strings.Join(items, ", "))
 	}
 
 	return fmt.Sprintf("%#v", val)
